@@ -3,7 +3,7 @@
 //   A. cring_every_state_every_op   (tree)  the C ring's state is (size, head, tail) + live bytes: every state is
 //                                           CONSTRUCTED directly, every operation applied, everything read back.
 //   B. cring_bfs_size<N>            (bfs)   operation histories on small rings to fix-point (reachability-independent).
-//   C. typed_ring_{int,elem,char}   (tree)  igris::ring<T>: every bufsize x head position x fill, every accessor.
+//   C. typed_ring_{int,elem,char,tracked,listelem} (tree) igris::ring<T>: every bufsize x head position x fill, every accessor.
 //   D. cyclic_buffer_{int,elem}     (tree)  i-th previous sample for every size x number of pushes, resize.
 //   E. ring_counter                 (tree)  every (size, counter, argument).
 //   F. unbounded_array              (tree)  the backing store: constructor/resize sizing under ASan.
@@ -11,6 +11,8 @@
 // Reference: std::deque of the bytes / elements written and not yet read. Memory oracle: ASan, every backing
 // buffer and every in/out data block is an exactly-sized heap allocation.
 #include "mc.hpp"
+#include "tracked.hpp" // harness/c02: lifetime registry, self-verifying element, tracking allocator
+#include <initializer_list>
 #include <algorithm>
 #include <cstdlib>
 #include <cstring>
@@ -169,6 +171,28 @@ struct Heap
     Heap(const Heap &) = delete;
 };
 
+// crash context for the supervisor and, when a lifetime registry is active, the context of its reports:
+// "C03.typed_ring.push.memory" -> registry context "typed_ring.push" -> signature C03.typed_ring.push.<kind>
+static void CTX(const char *f, ...) __attribute__((format(printf, 1, 2)));
+static void CTX(const char *f, ...)
+{
+    char b[200];
+    va_list ap;
+    va_start(ap, f);
+    vsnprintf(b, sizeof b, f, ap);
+    va_end(ap);
+    mc::crash_context("%s", b);
+    if (trk::Registry *r = trk::cur())
+    {
+        string c = b;
+        if (c.compare(0, 4, "C03.") == 0)
+            c = c.substr(4);
+        if (c.size() > 7 && c.compare(c.size() - 7, 7, ".memory") == 0)
+            c.resize(c.size() - 7);
+        if (r->ctx != c)
+            r->begin_op(c);
+    }
+}
 static int g_viols; // oracle failures so far in this process: a chain of steps stops at the first one (the reference has diverged)
 static const char *g_sigsfx = ""; // input class appended to every signature (the large-size sub-checks set ".size_ge_256" / ".size_ge_65536")
 #define VIOL(sig, ...) (g_viols++, mc::violation(string(sig) + g_sigsfx, __VA_ARGS__))
@@ -179,9 +203,9 @@ static void op_putc(CR &c, uint8_t b)
 {
     bool full = c.ref.size() == c.cap();
     Snap s0(c, full);
-    mc::crash_context("C03.ring_putc.memory");
+    CTX("C03.ring_putc.memory");
     int ret = ring_putc(&c.r, c.buf, (char)b);
-    mc::crash_context("C03.harness");
+    CTX("C03.harness");
     if (full)
     {
         g_nt = true;
@@ -202,9 +226,9 @@ static void op_putc(CR &c, uint8_t b)
 static void op_getc(CR &c)
 {
     Snap s0(c, c.ref.empty());
-    mc::crash_context("C03.ring_getc.memory");
+    CTX("C03.ring_getc.memory");
     int ret = ring_getc(&c.r, c.buf);
-    mc::crash_context("C03.harness");
+    CTX("C03.harness");
     if (c.ref.empty())
     {
         g_nt = true;
@@ -236,9 +260,9 @@ static void op_write(CR &c, const std::vector<uint8_t> &d)
     Heap in(k);
     for (unsigned i = 0; i < k; i++)
         in.p[i] = (char)d[i];
-    mc::crash_context("C03.ring_write.memory");
+    CTX("C03.ring_write.memory");
     int ret = ring_write(&c.r, c.buf, in.p, k);
-    mc::crash_context("C03.harness");
+    CTX("C03.harness");
     if (want < k)
         g_nt = true;
     if (ret != (int)want)
@@ -260,9 +284,9 @@ static void op_read(CR &c, unsigned k)
     for (unsigned i = 0; i < want; i++)
         ff |= c.ref[i] == 0xFF;
     Heap out(k, 0xCC);
-    mc::crash_context("C03.ring_read.memory");
+    CTX("C03.ring_read.memory");
     int ret = ring_read(&c.r, c.buf, out.p, k);
-    mc::crash_context("C03.harness");
+    CTX("C03.harness");
     if (want < k || ff)
         g_nt = true;
     if (ret != (int)want)
@@ -295,12 +319,12 @@ static void op_move_head(CR &c, unsigned bias, bool one, uint8_t first_stamp)
         c.buf[(c.r.head + i) % c.size] = (char)b;
         c.ref.push_back(b);
     }
-    mc::crash_context("C03.ring_move_head.memory");
+    CTX("C03.ring_move_head.memory");
     if (one)
         ring_move_head_one(&c.r);
     else
         ring_move_head(&c.r, bias);
-    mc::crash_context("C03.harness");
+    CTX("C03.harness");
     OUTCOME("move_head %u", bias);
 }
 static void op_move_tail(CR &c, unsigned bias, bool one)
@@ -309,12 +333,12 @@ static void op_move_tail(CR &c, unsigned bias, bool one)
         mc::harness_error("move_tail(%u) beyond avail", bias);
     for (unsigned i = 0; i < bias; i++)
         c.ref.pop_front();
-    mc::crash_context("C03.ring_move_tail.memory");
+    CTX("C03.ring_move_tail.memory");
     if (one)
         ring_move_tail_one(&c.r);
     else
         ring_move_tail(&c.r, bias);
-    mc::crash_context("C03.harness");
+    CTX("C03.harness");
     OUTCOME("move_tail %u", bias);
 }
 static void op_clean(CR &c)
@@ -372,7 +396,7 @@ static void verify(CR &c, const char *opname, bool skip_getc_drain = false)
     } quiet;
     // ring_for_each walks the live slots oldest first
     {
-        mc::crash_context("C03.ring_for_each.memory");
+        CTX("C03.ring_for_each.memory");
         unsigned steps = 0;
         bool bad = false;
         ring_for_each(n, &c.r)
@@ -388,7 +412,7 @@ static void verify(CR &c, const char *opname, bool skip_getc_drain = false)
         if (bad || steps != c.ref.size())
             VIOL(p + "for_each", "ring_for_each visited %u slot(s)%s, reference holds %zu; %s", steps, bad ? " (wrong slot/byte)" : "", c.ref.size(),
                           c.str().c_str());
-        mc::crash_context("C03.harness");
+        CTX("C03.harness");
     }
     // (a) drain with ring_getc, then one getc more (must be rejected)
     if (!skip_getc_drain)
@@ -710,6 +734,66 @@ struct Elem
     }
     bool operator==(const Elem &o) const { return v == o.v && w == o.w; }
 };
+// Element whose (count, value) and initializer_list constructors disagree: T(2,7) is {7,7}, T{2,7} is {2,7}
+struct ListElem
+{
+    int n = 0;
+    int a[4] = {0, 0, 0, 0};
+    ListElem() {}
+    ListElem(int count, int value) : n(count > 4 ? 4 : count)
+    {
+        for (int i = 0; i < n; i++)
+            a[i] = value;
+    }
+    ListElem(std::initializer_list<int> l) : n(0)
+    {
+        for (int x : l)
+            if (n < 4)
+                a[n++] = x;
+    }
+    bool operator==(const ListElem &o) const { return n == o.n && !memcmp(a, o.a, sizeof a); }
+};
+using trk::Tracked;
+// TrackAlloc, except that handing back "no block" (nullptr, 0) is tolerated as std::allocator tolerates it
+template <class T> struct RingAlloc : trk::TrackAlloc<T>
+{
+    RingAlloc() = default;
+    void deallocate(T *p, size_t n)
+    {
+        if (!p && !n)
+            return;
+        trk::TrackAlloc<T>::deallocate(p, n);
+    }
+};
+template <class T> struct AllocFor
+{
+    typedef std::allocator<T> type;
+};
+template <> struct AllocFor<Tracked>
+{
+    typedef RingAlloc<Tracked> type;
+};
+// Per case: a lifetime registry for the tracked element (no-op for the others). Declared first in the case body, so it
+// is torn down after every container of the case: whatever is still alive or allocated then has leaked.
+template <class T> struct LifeScope
+{
+    explicit LifeScope(const char *) {}
+};
+template <> struct LifeScope<Tracked>
+{
+    trk::Registry reg;
+    trk::Use use;
+    string what;
+    explicit LifeScope(const char *w) : use(reg), what(w) { reg.prop = "C03"; }
+    ~LifeScope()
+    {
+        long lv = reg.live_total(), z = reg.alloc_zones();
+        if (lv || z)
+            mc::violation("C03." + what + ".leak", "after every container of the case was destroyed: %ld element(s) never destroyed, %ld block(s) never deallocated", lv, z);
+        mc::count("tracked_constructions", reg.n_ctor);
+    }
+};
+
 template <class T> struct V;
 template <> struct V<int>
 {
@@ -723,6 +807,18 @@ template <> struct V<char>
     static char mk(int s) { return (char)(0xFD + s); } // fd fe ff 00 01 ...
     static string str(char v) { return mc::fmt("0x%02x", (uint8_t)v); }
 };
+template <> struct V<Tracked>
+{
+    static const char *name() { return "tracked"; }
+    static Tracked mk(int s) { return Tracked(s); }
+    static string str(const Tracked &t) { return mc::fmt("%d", trk::value_of(t)); }
+};
+template <> struct V<ListElem>
+{
+    static const char *name() { return "listelem"; }
+    static ListElem mk(int s) { return ListElem(1 + s % 3, 2 + s); } // (count, value): count never equals value
+    static string str(const ListElem &e) { return mc::fmt("%dx[%d,%d,%d,%d]", e.n, e.a[0], e.a[1], e.a[2], e.a[3]); }
+};
 template <> struct V<Elem>
 {
     static const char *name() { return "elem"; }
@@ -731,12 +827,15 @@ template <> struct V<Elem>
 };
 
 static int typed_max() { return mc::thorough() ? 17 : 9; }
+static int tracked_max() { return mc::thorough() ? 9 : 5; } // every event of the tracked element goes through a registry
+struct ListElem;
+template <class T> static int size_max() { return std::is_same<T, trk::Tracked>::value ? tracked_max() : std::is_same<T, ListElem>::value ? 9 : typed_max(); }
 
 template <class T> struct TR
 {
     int bufsize;
-    std::unique_ptr<igris::ring<T>> holder;
-    igris::ring<T> &ring;
+    std::unique_ptr<igris::ring<T, typename AllocFor<T>::type>> holder;
+    igris::ring<T, typename AllocFor<T>::type> &ring;
     std::deque<T> live;    // FIFO content
     std::vector<T> pushed; // every value ever pushed, oldest first
     size_t window = 0;     // how many of the most recent pushes are still in the buffer, contiguous behind head
@@ -744,21 +843,22 @@ template <class T> struct TR
     int v_base = g_viols; // an instance that has shown a violation is not used further (its reference has diverged)
     bool dead() const { return g_viols != v_base; }
     // construction paths: 0 ring(n); 1 default-constructed then resize(n); 2 copy of a ring(n)
-    static igris::ring<T> *construct(int b, int path)
+    static igris::ring<T, typename AllocFor<T>::type> *construct(int b, int path)
     {
-        mc::crash_context("C03.typed_ring.ctor.memory");
+        CTX("C03.typed_ring.ctor.memory");
         if (path == 0)
-            return new igris::ring<T>(b);
+            return new igris::ring<T, typename AllocFor<T>::type>(b);
         if (path == 1)
         {
-            igris::ring<T> *r = new igris::ring<T>();
+            igris::ring<T, typename AllocFor<T>::type> *r = new igris::ring<T, typename AllocFor<T>::type>();
             r->resize(b);
             return r;
         }
-        igris::ring<T> proto(b);
-        return new igris::ring<T>(proto);
+        igris::ring<T, typename AllocFor<T>::type> proto(b);
+        return new igris::ring<T, typename AllocFor<T>::type>(proto);
     }
     explicit TR(int b, int path = 0) : bufsize(b), holder(construct(b, path)), ring(*holder) {}
+    ~TR() { CTX("C03.typed_ring.dtor.memory"); } // the members (reference copies, then the ring itself) go after this
     unsigned rsize() const { return (unsigned)bufsize + 1; }
     string tn(const char *what) const { return string("C03.typed_ring.") + what; }
     string str()
@@ -779,18 +879,22 @@ template <class T> struct TR
         if ((int)live.size() >= bufsize)
             mc::harness_error("push beyond room");
         T v = V<T>::mk(stamp++);
-        mc::crash_context("C03.typed_ring.push.memory");
+        CTX("C03.typed_ring.push.memory");
         if (how == 0)
             ring.push(v);
         else
             emplace_(v);
-        mc::crash_context("C03.harness");
+        CTX("C03.harness");
         note_push(v);
     }
     void emplace_(const T &v)
     {
         if constexpr (std::is_same<T, Elem>::value)
             ring.emplace(v.v, v.w);
+        else if constexpr (std::is_same<T, ListElem>::value)
+            ring.emplace(v.n, v.a[0]); // (count, value): must build what T(count, value) builds
+        else if constexpr (std::is_same<T, Tracked>::value)
+            ring.emplace(trk::value_of(v));
         else
             ring.emplace(v);
     }
@@ -798,14 +902,13 @@ template <class T> struct TR
     {
         if (live.empty())
             mc::harness_error("pop beyond avail");
-        mc::crash_context("C03.typed_ring.pop.memory");
+        CTX("C03.typed_ring.pop.memory");
         if (!(ring.tail() == live.front()))
             VIOL(tn("tail.value"), "tail() is %s, oldest element is %s; %s", V<T>::str(ring.tail()).c_str(), V<T>::str(live.front()).c_str(), str().c_str());
         ring.pop();
-        mc::crash_context("C03.harness");
+        CTX("C03.harness");
         live.pop_front();
-        if (!std::is_trivially_destructible<T>::value)
-            window = std::min(window, live.size());
+        window = std::min(window, live.size()); // what a popped slot holds afterwards is not specified
     }
     bool idx_ok()
     {
@@ -843,7 +946,7 @@ template <class T> struct TR
     {
         if (dead())
             return;
-        mc::crash_context("C03.typed_ring.observe.memory");
+        CTX("C03.typed_ring.observe.memory");
         if (!counts(when))
             return;
         int sz = (int)ring.size();
@@ -863,7 +966,7 @@ template <class T> struct TR
         if (ring.index_of(&ring.head_place()) != ring.head_index())
             VIOL(tn("head_place"), "%s: head_place() is slot %d, head_index()=%d", when, ring.index_of(&ring.head_place()), ring.head_index());
         // get_last(offset,count,order) over the most recent pushes still in the buffer
-        size_t W = std::is_trivially_destructible<T>::value ? window : std::min(window, live.size());
+        size_t W = std::min(window, live.size());
         size_t P = pushed.size();
         long evals = 0, ntev = 0;
         for (size_t off = 0; off <= W; off++)
@@ -910,14 +1013,14 @@ template <class T> struct TR
             }
         mc::more_cases(evals, ntev);
         mc::outcome(mc::fmt("typed avail=%zu head=%u", live.size(), head));
-        mc::crash_context("C03.harness");
+        CTX("C03.harness");
     }
     // fill up to capacity through push, then read everything back through tail()/pop()
     void fill_and_drain(const char *when)
     {
         if (dead())
             return;
-        mc::crash_context("C03.typed_ring.fill_drain.memory");
+        CTX("C03.typed_ring.fill_drain.memory");
         int guard = 0, v0 = g_viols;
         while (g_viols == v0 && ring.room() > 0 && guard++ <= bufsize + 1)
         {
@@ -940,14 +1043,14 @@ template <class T> struct TR
             pop();
         if (g_viols == v0)
             counts(when);
-        mc::crash_context("C03.harness");
+        CTX("C03.harness");
     }
     // one element through every slot (so that every slot is once the wrap point), then fill and drain
     void exercise(const char *when)
     {
         if (dead())
             return;
-        mc::crash_context("C03.typed_ring.%s.memory", when);
+        CTX("C03.typed_ring.%s.memory", when);
         int v0 = g_viols;
         if (!counts(when))
             return;
@@ -961,7 +1064,7 @@ template <class T> struct TR
             if (g_viols != v0 || !counts(when))
                 return;
         }
-        mc::crash_context("C03.typed_ring.%s.memory", when);
+        CTX("C03.typed_ring.%s.memory", when);
         if (g_viols == v0)
             fill_and_drain(when);
     }
@@ -971,7 +1074,7 @@ static const char *const TPATH[] = {"ring(n)", "ring() + resize(n)", "copy of ri
 template <class T> static TR<T> *build_typed(int bufsize, int k, int m, int path = 0)
 {
     TR<T> *t = new TR<T>(bufsize, path);
-    mc::crash_context("C03.typed_ring.ctor.memory");
+    CTX("C03.typed_ring.ctor.memory");
     for (int i = 0; i < k; i++)
     {
         t->push(i & 1);
@@ -990,13 +1093,16 @@ static std::vector<BK> g_bk;
 
 template <class T> static void typed_case()
 {
+    LifeScope<T> life("typed_ring");
     const bool is_char = std::is_same<T, char>::value;
-    int bi = mc::choose((int)g_bk.size());
+    int nbk = 0; // the table is ordered by size: a prefix
+    while (nbk < (int)g_bk.size() && g_bk[nbk].bufsize <= size_max<T>())
+        nbk++;
+    int bi = mc::choose(nbk);
     int bufsize = g_bk[bi].bufsize, k = g_bk[bi].k;
     int m = mc::choose(bufsize + 1);
     int grp = mc::choose(is_char ? 8 : 7);
-    // resize() hands out raw storage and the copy shares nothing: only for trivially constructible elements
-    int path = std::is_trivially_default_constructible<T>::value ? mc::choose(3) : 0;
+    int path = mc::choose(3);
     static const char *const G[] = {"observe+drain", "push/emplace", "pop", "clear/reset", "set_last_index(all)", "resize(all)", "head_place/move_*_one", "read(k)/write(k)"};
     int sz = bufsize + 1;
     mc::describe("igris::ring<%s>(%d) built as %s: %d push+pop (head at slot %d), then %d pushes; ops: %s", V<T>::name(), bufsize, TPATH[path], k, k % sz, m, G[grp]);
@@ -1041,11 +1147,10 @@ template <class T> static void typed_case()
     {
         {
             auto t = fresh();
-            mc::crash_context("C03.typed_ring.clear.memory");
+            CTX("C03.typed_ring.clear.memory");
             t->ring.clear();
             t->live.clear();
-            if (!std::is_trivially_destructible<T>::value)
-                t->window = 0;
+            t->window = 0;
             t->observe("after clear");
             t->exercise("clear");
         }
@@ -1054,7 +1159,7 @@ template <class T> static void typed_case()
             // reset() empties the ring; elements are dropped, not destroyed (drain first so that none is live)
             while (!t->live.empty())
                 t->pop();
-            mc::crash_context("C03.typed_ring.reset.memory");
+            CTX("C03.typed_ring.reset.memory");
             t->ring.reset();
             t->window = 0;
             t->observe("after reset");
@@ -1068,9 +1173,10 @@ template <class T> static void typed_case()
         for (int idx = 0; idx < sz; idx++)
         {
             auto t = fresh();
+            CTX("C03.typed_ring.get.memory");
             for (int i = 0; i < sz; i++)
                 t->ring.get(i) = V<T>::mk(40 + i);
-            mc::crash_context("C03.typed_ring.set_last_index.memory");
+            CTX("C03.typed_ring.set_last_index.memory");
             t->ring.set_last_index(idx);
             if (!t->idx_ok())
                 continue;
@@ -1099,12 +1205,12 @@ template <class T> static void typed_case()
         }
         break;
     case 5:
-        for (int n = 1; n <= typed_max(); n++)
+        for (int n = 1; n <= size_max<T>(); n++)
         {
             auto t = fresh();
             while (!t->live.empty())
                 t->pop(); // resize drops the storage
-            mc::crash_context("C03.typed_ring.resize.memory");
+            CTX("C03.typed_ring.resize.memory");
             t->ring.resize(n);
             t->bufsize = n;
             t->window = 0;
@@ -1124,7 +1230,7 @@ template <class T> static void typed_case()
             if (m < bufsize)
             { // in-place production: fill head_place(), publish with move_head_one()
                 T v = V<T>::mk(t->stamp++);
-                mc::crash_context("C03.typed_ring.head_place.memory");
+                CTX("C03.typed_ring.head_place.memory");
                 t->ring.head_place() = v;
                 t->ring.move_head_one();
                 t->note_push(v);
@@ -1134,11 +1240,12 @@ template <class T> static void typed_case()
         }
         {
             auto t = fresh();
-            if (m > 0 && std::is_trivially_destructible<T>::value)
-            { // consume without destroying
-                mc::crash_context("C03.typed_ring.move_tail_one.memory");
+            if (m > 0)
+            { // consume without destroying: the object stays in its slot until the slot is used again
+                CTX("C03.typed_ring.move_tail_one.memory");
                 t->ring.move_tail_one();
                 t->live.pop_front();
+                t->window = std::min(t->window, t->live.size());
                 t->observe("after move_tail_one()");
             }
             t->fill_and_drain("fill and drain");
@@ -1157,7 +1264,7 @@ template <class T> static void typed_case()
                     for (int i = 0; i < kk; i++)
                         in.p[i] = (char)(0xFF - (i % 3)); // ff fe fd ff ..
                     size_t want = std::min<size_t>(kk, bufsize - t->live.size());
-                    mc::crash_context("C03.typed_ring.write.memory");
+                    CTX("C03.typed_ring.write.memory");
                     size_t ret = t->ring.write(in.p, kk);
                     if (ret != want)
                         VIOL("C03.typed_ring.write.count", "write(%d) with room %zu returned %zu; %s", kk, bufsize - t->live.size(), ret, t->str().c_str());
@@ -1173,7 +1280,7 @@ template <class T> static void typed_case()
                     bool ff = false;
                     for (size_t i = 0; i < want; i++)
                         ff |= (uint8_t)t->live[i] == 0xFF;
-                    mc::crash_context("C03.typed_ring.read.memory");
+                    CTX("C03.typed_ring.read.memory");
                     size_t ret = t->ring.read(out.p, kk);
                     if (ret != want)
                         VIOL(ff ? "C03.typed_ring.read.count.ff_in_data" : "C03.typed_ring.read.count", "read(%d) with %zu stored returned %zu; %s", kk, t->live.size(), ret,
@@ -1201,17 +1308,18 @@ template <class T> static void typed_case()
 // ======================================================================================================
 template <class T> struct CB
 {
-    igris::cyclic_buffer<T> cb;
+    igris::cyclic_buffer<T, typename AllocFor<T>::type> cb;
     std::vector<T> hist; // samples pushed since construction / resize
     size_t cap;
     int stamp = 0;
-    explicit CB(size_t n) : cb(n), cap(n) {}
+    explicit CB(size_t n) : cb((CTX("C03.cyclic_buffer.ctor.memory"), n)), cap(n) {}
+    ~CB() { CTX("C03.cyclic_buffer.dtor.memory"); }
     void push()
     {
         T v = V<T>::mk(stamp++);
-        mc::crash_context("C03.cyclic_buffer.push.memory");
+        CTX("C03.cyclic_buffer.push.memory");
         T ret = cb.push(v);
-        mc::crash_context("C03.harness");
+        CTX("C03.harness");
         // Once the buffer is full, push() hands back the sample that leaves the window: the cap-th previous one
         // (what [cap-1] addressed before the call). While it is still filling the slot was never written: unchecked.
         if (hist.size() >= cap && !(ret == hist[hist.size() - cap]))
@@ -1221,7 +1329,7 @@ template <class T> struct CB
     }
     void observe(const char *when)
     {
-        mc::crash_context("C03.cyclic_buffer.observe.memory");
+        CTX("C03.cyclic_buffer.observe.memory");
         size_t want = std::min(hist.size(), cap);
         if (cb.counter.counter < 0 || cb.counter.counter >= cb.counter.size || (size_t)cb.counter.size > cb.data.size())
         {
@@ -1231,7 +1339,7 @@ template <class T> struct CB
         if (cb.size() != want)
             VIOL(string("C03.cyclic_buffer.size") + (strstr(when, "resize") ? ".after_resize" : ""), "%s: size()=%zu after %zu pushes into %zu slots, want %zu", when,
                           cb.size(), hist.size(), cap, want);
-        const igris::cyclic_buffer<T> &ccb = cb;
+        const igris::cyclic_buffer<T, typename AllocFor<T>::type> &ccb = cb;
         for (size_t i = 0; i < want; i++)
         {
             T a = cb[(int)i];
@@ -1243,7 +1351,7 @@ template <class T> struct CB
         }
         mc::more_cases(want, hist.size() > cap ? want : 0);
         mc::outcome(mc::fmt("cyclic n=%zu counter=%d", want, cb.counter.counter));
-        mc::crash_context("C03.harness");
+        CTX("C03.harness");
     }
 };
 struct SK
@@ -1253,14 +1361,18 @@ struct SK
 static std::vector<SK> g_sk;
 template <class T> static void cyclic_case()
 {
-    int i = mc::choose((int)g_sk.size());
+    LifeScope<T> life("cyclic_buffer");
+    int nsk = 0;
+    while (nsk < (int)g_sk.size() && g_sk[nsk].size <= size_max<T>())
+        nsk++;
+    int i = mc::choose(nsk);
     int size = g_sk[i].size, k = g_sk[i].k;
     int grp = mc::choose(2);
     mc::describe("cyclic_buffer<%s>(%d), %d pushes%s", V<T>::name(), size, k, grp ? ", then resize(n) for every n and push again" : "");
     if (k > size)
         mc::nontrivial(); // the write position wrapped and old samples were overwritten
     CB<T> c(size);
-    mc::crash_context("C03.cyclic_buffer.ctor.memory");
+    CTX("C03.cyclic_buffer.ctor.memory");
     c.observe("fresh");
     for (int j = 0; j < k; j++)
     {
@@ -1269,13 +1381,13 @@ template <class T> static void cyclic_case()
     }
     if (grp == 1)
     {
-        int N = typed_max();
+        int N = size_max<T>();
         for (int n = 1; n <= N; n++)
         {
             CB<T> d(size);
             for (int j = 0; j < k; j++)
                 d.push();
-            mc::crash_context("C03.cyclic_buffer.resize.memory");
+            CTX("C03.cyclic_buffer.resize.memory");
             d.cb.resize(n);
             d.cap = n;
             d.hist.clear();
@@ -1365,49 +1477,48 @@ static void ring_counter_case()
 // ======================================================================================================
 template <class T> static void uarray_case()
 {
-    int N = typed_max();
+    LifeScope<T> life("unbounded_array");
+    int N = size_max<T>();
     int c = mc::choose((N + 1) * (N + 1));
     int via_resize = mc::choose(2);
     int sz = c / (N + 1), n = c % (N + 1);
     mc::describe("unbounded_array<%s>%s(%d) then resize(%d)", V<T>::name(), via_resize ? "() + resize" : "", sz, n);
     if (n != sz)
         mc::nontrivial();
-    mc::crash_context("C03.unbounded_array.ctor.memory");
-    igris::unbounded_array<T> a0(via_resize ? 0 : sz), a1;
-    igris::unbounded_array<T> &a = via_resize ? a1 : a0;
+    CTX("C03.unbounded_array.ctor.memory");
+    igris::unbounded_array<T, typename AllocFor<T>::type> a0(via_resize ? 0 : sz), a1;
+    igris::unbounded_array<T, typename AllocFor<T>::type> &a = via_resize ? a1 : a0;
     if (via_resize)
     {
         a.resize(sz);
-        for (int i = 0; i < sz; i++)
-            new (a.data() + i) T(); // resize hands out raw storage
     }
     if (a.size() != (size_t)sz || a.end() - a.begin() != sz || (sz && a.data() != &a[0]))
         VIOL("C03.unbounded_array.ctor.size", "unbounded_array(%d): size()=%zu", sz, a.size());
     for (int i = 0; i < sz; i++)
         a[i] = V<T>::mk(i);
     {
-        igris::unbounded_array<T> b(a);
+        igris::unbounded_array<T, typename AllocFor<T>::type> b(a);
         bool ok = b.size() == a.size();
         for (int i = 0; ok && i < sz; i++)
             ok = b[i] == V<T>::mk(i);
         if (!ok)
             VIOL("C03.unbounded_array.copy", "copy of unbounded_array(%d) differs", sz);
     }
-    mc::crash_context("C03.unbounded_array.resize.memory");
+    CTX("C03.unbounded_array.resize.memory");
     a.resize(n);
     if (a.size() != (size_t)n || a.end() - a.begin() != n)
         VIOL("C03.unbounded_array.resize.size", "resize(%d): size()=%zu", n, a.size());
     for (int i = 0; i < n; i++)
-        new (a.data() + i) T(V<T>::mk(100 + i)); // resize hands out raw storage
+        a[i] = V<T>::mk(100 + i); // an array of n elements: they exist, as after unbounded_array(n)
     a.fill(V<T>::mk(7));
-    const igris::unbounded_array<T> &ca = a;
+    const igris::unbounded_array<T, typename AllocFor<T>::type> &ca = a;
     int cntd = 0;
     for (const T &x : ca)
         cntd += x == V<T>::mk(7);
     if (cntd != n)
         VIOL("C03.unbounded_array.fill", "fill over %d elements reached %d", n, cntd);
     mc::outcome(mc::fmt("ua %d", n));
-    mc::crash_context("C03.harness");
+    CTX("C03.unbounded_array.dtor.memory");
 }
 
 // ======================================================================================================
@@ -1427,7 +1538,7 @@ static void init_paths_case()
     mc::describe("ring of %u slots set up by %s: fresh state, fill, read back", size, INIT_NAME[path]);
     if (path != INIT_FN)
         mc::nontrivial();
-    mc::crash_context("C03.%s.memory", INIT_NAME[path]);
+    CTX("C03.%s.memory", INIT_NAME[path]);
     CR c(size, path);
     mc::outcome(mc::fmt("init %u %u %u", c.r.head, c.r.tail, c.r.size == size));
     if (fresh_ok(c))
@@ -1602,7 +1713,7 @@ static void big_typed_observe(TR<int> &t, const std::vector<unsigned> &B, const 
 {
     if (t.dead() || !t.counts(when))
         return;
-    mc::crash_context("C03.typed_ring.observe.memory");
+    CTX("C03.typed_ring.observe.memory");
     igris::ring<int> &ring = t.ring;
     long sz = ring.size(), evals = 0, ntev = 0;
     unsigned head = ring.r.head;
@@ -1654,7 +1765,7 @@ static void big_typed_observe(TR<int> &t, const std::vector<unsigned> &B, const 
         }
     mc::more_cases(evals, ntev);
     mc::outcome(mc::fmt("bigtyped head=%u avail=%zu", head, t.live.size()));
-    mc::crash_context("C03.harness");
+    CTX("C03.harness");
 }
 
 static void big_typed_case()
@@ -1670,7 +1781,7 @@ static void big_typed_case()
     auto at_boundary = [&](unsigned p) { return std::binary_search(B.begin(), B.end(), p); };
     {
         TR<int> t(n, path);
-        mc::crash_context("C03.typed_ring.push.memory");
+        CTX("C03.typed_ring.push.memory");
         for (unsigned i = 0; i < hb; i++)
         {
             t.push(i & 1);
@@ -1694,7 +1805,7 @@ static void big_typed_case()
         TR<int> t(n, path);
         for (unsigned i = 0; i < sz; i++)
             t.ring.get((int)i) = 1000 + (int)i;
-        mc::crash_context("C03.typed_ring.set_last_index.memory");
+        CTX("C03.typed_ring.set_last_index.memory");
         t.ring.set_last_index((int)idx);
         if (!t.idx_ok())
             continue;
@@ -1739,7 +1850,7 @@ static void big_cyclic_case()
     {
         c.push();
         c.push();
-        mc::crash_context("C03.cyclic_buffer.resize.memory");
+        CTX("C03.cyclic_buffer.resize.memory");
         c.cb.resize(n);
         c.cap = n;
         c.hist.clear();
@@ -1749,7 +1860,7 @@ static void big_cyclic_case()
     for (int j = 0; j < 2 * n + 3; j++)
     {
         c.push();
-        mc::crash_context("C03.cyclic_buffer.observe.memory");
+        CTX("C03.cyclic_buffer.observe.memory");
         long want = std::min<long>(c.hist.size(), n);
         if (c.cb.counter.counter < 0 || c.cb.counter.counter >= c.cb.counter.size || (size_t)c.cb.counter.size > c.cb.data.size())
         {
@@ -1783,7 +1894,7 @@ static void big_cyclic_case()
     }
     mc::more_cases(evals, evals);
     mc::outcome(mc::fmt("bigcyclic %d", c.cb.counter.counter));
-    mc::crash_context("C03.harness");
+    CTX("C03.harness");
 }
 
 // ---- ring_counter with size around 256 (thorough: around 65536)
@@ -1920,8 +2031,11 @@ static void register_all(bool thorough)
     mc::add_check("typed_ring_int", typed_case<int>);
     mc::add_check("typed_ring_elem", typed_case<Elem>);
     mc::add_check("typed_ring_char", typed_case<char>);
+    mc::add_check("typed_ring_tracked", typed_case<Tracked>);
+    mc::add_check("typed_ring_listelem", typed_case<ListElem>);
     mc::add_check("cyclic_buffer_int", cyclic_case<int>);
     mc::add_check("cyclic_buffer_elem", cyclic_case<Elem>);
+    mc::add_check("cyclic_buffer_tracked", cyclic_case<Tracked>);
     mc::add_check("ring_counter", ring_counter_case);
     mc::add_check("large_cring", big_cring_case);
     mc::add_check("large_typed_ring_int", big_typed_case);
@@ -1929,6 +2043,7 @@ static void register_all(bool thorough)
     mc::add_check("large_ring_counter", big_ring_counter_case);
     mc::add_check("unbounded_array_int", uarray_case<int>);
     mc::add_check("unbounded_array_elem", uarray_case<Elem>);
+    mc::add_check("unbounded_array_tracked", uarray_case<Tracked>);
 }
 
 // The set of universes depends on the tier, so registration happens here rather than in a static initialiser.
